@@ -54,7 +54,7 @@ def oracle_sock(case, impl):
     adv = adv_size(payload)
     if adv is None:
         return None   # not a well-formed query of the harness's own shape: only the model diff applies
-    if f[2] in ("S", "E") and len(rep) >= 2 and rep[:2] != payload[:2]:
+    if f[2] in ("S", "E", "T") and len(rep) >= 2 and rep[:2] != payload[:2]:
         return "reply carries another ID"   # (an 'H' outcome is an upstream message with its own bytes)
     up = None
     if f[2] == "S":
